@@ -338,6 +338,8 @@ Proof.
     destruct (getc_nth_error s c x Ex) as [Eg Hl]. apply InvM_remove_ref. apply InvM_setc; [exact H | now rewrite Eg | now rewrite Eg].
   - now apply InvM_cb_return.
   - destruct (Nat.eqb c 0); [exact H|]. destruct (cancel_root_frame s c) as [E1 [_ [E3 [_ [_ [E6 [E7 E8]]]]]]]. now apply (InvM_ext s).
+  - destruct (watch_step_spec s c) as [->|[x [y [Hx [-> Hy]]]]]; [exact H|]. wsplit Hy. destruct (getc_nth_error s c x Hx) as [Eg Hl].
+    apply InvM_setc; [exact H | now rewrite Eg | rewrite Eg; unfold acont; now rewrite Wares, Waval, Waerr].
 Qed.
 
 Theorem run_InvAM k es : InvA (run repaired (init k) es) /\ InvM (run repaired (init k) es).
@@ -348,12 +350,13 @@ Proof.
 Qed.
 
 (* ------------------------------------------------------------------ *)
-(* Access's local invariant: the nonce never runs behind the snapshot; inside the callback an uncancelled context means
-   no notification since section S1, and no notification since S1 means the snapshot is still what the callback holds *)
+(* Access's local invariant: the nonce never runs behind the snapshot; inside the callback an uncancelled context whose
+   watcher goroutine has not been woken means no notification since section S1, and no notification since S1 means the
+   snapshot is still what the callback holds *)
 Definition acc_ok (x : cons) : Prop :=
   ac_snap x <= ac_nonce x /\
   match cpcv x with
-  | CAccCb v => (ac_cbcanc x = false -> ac_nonce x = ac_snap x) /\
+  | CAccCb v => (ac_cbcanc x = false -> ac_wpark x = false -> ac_nonce x = ac_snap x) /\
                 (ac_nonce x = ac_snap x -> ac_res x = true /\ ac_val x = v /\ ac_err x = 0)
   | CAccWait => ac_nonce x = ac_snap x -> ac_res x = false /\ ac_err x = 0
   | _ => True
@@ -387,17 +390,20 @@ Proof.
               else {| ck := ck x; cref := cref x; ccanc := ccanc x; cpcv := cpcv x; cw_res := cw_res x; ww_res := ww_res x; ww_nonce := ww_nonce x;
                       ww_prom := ww_prom x; ww_once := ww_once x; ww_fired := ww_fired x; ww_firepc := ww_firepc x; ac_val := v; ac_err := e;
                       ac_res := r; ac_nonce := S (ac_nonce x); ac_snap := ac_snap x;
-                      ac_cbcanc := match cpcv x with CAccCb _ => true | _ => ac_cbcanc x end; ac_cbres := ac_cbres x |})).
+                      ac_cbcanc := match cpcv x with CAccCb _ => ac_cbcanc x || ccanc x | _ => ac_cbcanc x end; ac_cbres := ac_cbres x;
+                      ac_wpark := match cpcv x with CAccCb _ => ac_wpark x || negb (ac_cbcanc x || ccanc x) | _ => ac_wpark x end;
+                      ac_wstale := ac_wstale x |})).
   { intros r v e. destruct (Bool.eqb r (ac_res x) && Nat.eqb v (ac_val x) && Nat.eqb e (ac_err x)); [exact (conj H1 H2)|].
-    unfold acc_ok. cbn [ac_snap ac_nonce cpcv ac_cbcanc ac_res ac_val ac_err]. split; [lia|].
-    destruct (cpcv x); auto; try (intros; lia); try (split; [discriminate | intros; lia]). }
+    unfold acc_ok. cbn [ac_snap ac_nonce cpcv ac_cbcanc ac_wpark ac_res ac_val ac_err]. split; [lia|].
+    destruct (cpcv x); auto; try (intros; lia). split; [|intros; lia].
+    intros Hc Hw. exfalso. apply orb_false_iff in Hw. destruct Hw as [_ Hw]. rewrite Hc in Hw. discriminate Hw. }
   destruct n as [|v e]; apply D.
 Qed.
 
 Lemma acc_ok_same_acc x y :
   acc_ok x -> cpcv y = cpcv x -> ac_res y = ac_res x -> ac_val y = ac_val x -> ac_err y = ac_err x -> ac_nonce y = ac_nonce x ->
-  ac_snap y = ac_snap x -> ac_cbcanc y = ac_cbcanc x -> acc_ok y.
-Proof. intros H E1 E2 E3 E4 E5 E6 E7. unfold acc_ok in *. rewrite E1, E2, E3, E4, E5, E6, E7. exact H. Qed.
+  ac_snap y = ac_snap x -> ac_cbcanc y = ac_cbcanc x -> ac_wpark y = ac_wpark x -> acc_ok y.
+Proof. intros H E1 E2 E3 E4 E5 E6 E7 E8. unfold acc_ok in *. rewrite E1, E2, E3, E4, E5, E6, E7, E8. exact H. Qed.
 
 Lemma acc_ok_leave x p : acc_ok x -> (match p with CAccCb _ | CAccWait => False | _ => True end) -> acc_ok (with_cpc x p).
 Proof. intros [H1 _] Hp. unfold acc_ok. cbn [ac_snap ac_nonce cpcv with_cpc]. split; [exact H1|]. destruct p; auto; contradiction. Qed.
@@ -469,7 +475,11 @@ Proof.
     destruct (ck x); try exact H. destruct (cpcv x); try exact H.
     destruct (ccanc x); [apply acc_ret_InvK; [exact H | apply Hx]|].
     match goal with |- InvK (conss (if ?b then _ else _)) => destruct b end; [apply acc_ret_InvK; [exact H | apply Hx]|].
-    apply InvK_setc; [exact H|]. now apply acc_ok_leave.
+    apply InvK_setc; [exact H|]. unfold acc_ok. cbn [ac_snap ac_nonce cpcv with_cpc cb_done]. split; [apply Hx | exact I].
+  - destruct (watch_step_spec s c) as [->|[x [y [Hx [-> Hy]]]]]; [exact H|]. wsplit Hy. apply InvK_setc; [exact H|].
+    pose proof (H c x Hx) as Hk. unfold acc_ok in *. rewrite Wcpcv, Wares, Waval, Waerr, Wanonce, Wasnap. destruct Hk as [K1 K2]. split; [exact K1|].
+    destruct (cpcv x); auto. destruct K2 as [K2 K3]. split; [|exact K3].
+    destruct Wwatch as [[_ [E1 E2]]|[_ [_ [_ [_ E]]]]]; [rewrite E1, E2; exact K2 | rewrite E; discriminate].
 Qed.
 
 Theorem run_InvK k es : InvK (conss (run repaired (init k) es)).
@@ -496,25 +506,34 @@ Section Access.
     intros Hx Hk Hp. destruct (access_ref_in_set c x Hx Hk Hp) as [P1 [_ P3]]. destruct (run_InvAM k es) as [_ HM]. exact (HM c x Hx P1 P3).
   Qed.
 
-  (* inside the callback with a context that is not cancelled: the value it was called with is the container's current
-     value, resolved without error, and nothing was notified since Access looked *)
+  (* inside the callback with a context that is not cancelled and whose watcher goroutine has not been woken: the value it
+     was called with is the container's current value, resolved without error, and nothing was notified since Access looked *)
   Theorem access_called_with_current_value c x v :
-    nth_error (conss s) c = Some x -> ck x = CKAccess -> cpcv x = CAccCb v -> ac_cbcanc x = false ->
+    nth_error (conss s) c = Some x -> ck x = CKAccess -> cpcv x = CAccCb v -> ac_cbcanc x = false -> ac_wpark x = false ->
     resolved s = true /\ value s = v /\ verr s = 0 /\ ac_nonce x = ac_snap x.
   Proof.
-    intros Hx Hk Hp Hc. pose proof (run_InvK k es c x Hx) as [_ K]. rewrite Hp in K. destruct K as [K1 K2].
-    specialize (K1 Hc). destruct (K2 K1) as [R1 [R2 R3]].
+    intros Hx Hk Hp Hc Hw. pose proof (run_InvK k es c x Hx) as [_ K]. rewrite Hp in K. destruct K as [K1 K2].
+    specialize (K1 Hc Hw). destruct (K2 K1) as [R1 [R2 R3]].
     destruct (access_mirror c x Hx Hk ltac:(now rewrite Hp)) as [M1 M2]. assert (Er : resolved s = true) by congruence.
     destruct (M2 Er) as [M3 M4]. split; [exact Er|]. split; [congruence|]. split; [congruence | exact K1].
   Qed.
 
-  (* whenever the value the callback holds is no longer the container's current value, its context is cancelled *)
+  (* whenever the value the callback holds is no longer the container's current value, its context is cancelled, or the
+     watcher goroutine of the invocation has been woken and is about to cancel it (its step [EWatch] is enabled) *)
   Theorem access_ctx_cancelled_on_invalidation c x v :
     nth_error (conss s) c = Some x -> ck x = CKAccess -> cpcv x = CAccCb v ->
-    (resolved s = false \/ value s <> v \/ verr s <> 0) -> ac_cbcanc x = true.
+    (resolved s = false \/ value s <> v \/ verr s <> 0) -> ac_cbcanc x = true \/ ac_wpark x = true.
   Proof.
-    intros Hx Hk Hp Hi. destruct (ac_cbcanc x) eqn:Ec; [reflexivity|]. exfalso.
-    destruct (access_called_with_current_value c x v Hx Hk Hp Ec) as [A1 [A2 [A3 _]]]. destruct Hi as [H|[H|H]]; congruence.
+    intros Hx Hk Hp Hi. destruct (ac_cbcanc x) eqn:Ec; [now left|]. destruct (ac_wpark x) eqn:Ew; [now right|]. exfalso.
+    destruct (access_called_with_current_value c x v Hx Hk Hp Ec Ew) as [A1 [A2 [A3 _]]]. destruct Hi as [H|[H|H]]; congruence.
+  Qed.
+
+  (* ... and the watcher's step cancels it *)
+  Theorem access_watcher_cancels c x : nth_error (conss s) c = Some x -> ac_wstale x = 0 -> ac_wpark x = true ->
+    ac_cbcanc (getc (step repaired s (EWatch c)) c) = true /\ ac_wpark (getc (step repaired s (EWatch c)) c) = false.
+  Proof.
+    intros Hx Hs Hw. cbn [step]. unfold watch_step. rewrite Hx, Hs, Hw. destruct (getc_nth_error s c x Hx) as [_ Hl].
+    rewrite getc_setc, Nat.eqb_refl by exact Hl. split; reflexivity.
   Qed.
 
   (* a notification since Access looked is remembered until it looks again *)
